@@ -410,6 +410,29 @@ def whyStuck (P : Program) (d : Loc × State) : Option (List Err) :=
         | none => none
         | some b => if b.instrs.isEmpty then some (edgeErrs d.2 (f.cfg.edgesOut b.index)) else none
 
+/-- the operation at `d` is an indirect branch whose target has a value, and no instruction of the program
+    carries that address: the semantics has no successor inside `P`; the executor must hand the address to
+    the translator (and must not continue at a location of `P`) -/
+def leavesProgram (P : Program) (d : Loc × State) : Option Nat :=
+  match d.1.fn with
+  | none => none
+  | some fi =>
+    match P.function fi with
+    | none => none
+    | some f =>
+      match d.1.pos with
+      | .instr bi idx =>
+        match f.block bi with
+        | none => none
+        | some b =>
+          match positions b idx with
+          | [(_, i)] =>
+            match opSem d.2 i.op with
+            | some (_, .branch a) => if (fromAddress P a).isNone then some a else none
+            | _ => none
+          | _ => none
+      | _ => none
+
 /-- everything the configuration's next step reads is typed in `σ`, its block is well-formed, and the
     guards it may evaluate are fine in the state they are evaluated in (decidable; used by the driver) -/
 def inDomain (P : Program) (d : Loc × State) : Bool :=
